@@ -8,6 +8,11 @@ evaluator/*  One inductive step of the REAL transpile-time evaluator (parser._ev
              (ii) the outcome is a value of sort int|float|str|bool|list|tuple or an ordinary exception - never an
              internal-error type, (iii) promptness: an integer power with |base| > 1 and exponent > 64 is never
              computed (the only operator whose result size is super-linear in its operands).
+regex/*      Promptness of line classification: for every regular expression of the transpiler (compiled module attributes
+             and literals passed to re.* - read from the live source) z3's sequence/regex theory decides, per loop of
+             Python's own parse tree of the pattern, whether some string is both ONE and SEVERAL iterations of the loop
+             body (exponential ambiguity = catastrophic backtracking).  A finding is confirmed by timing the real engine
+             on a pumped input in a subprocess.
 sites/*      (concrete cross-check, outside the solver claim) hostile expressions in every argument position go through
              the real parse()+emit() in a fresh interpreter under an audit hook (open/exec/import/subprocess/socket/
              os.system), with planted canaries and a wall-clock limit: the outcome must be firmware or ValueError/
@@ -215,8 +220,21 @@ def sig(v):
         return (len(v), repr(sorted(map(str, v)))[:300] if isinstance(v, (dict, set)) else repr(v)[:300])
     except Exception:
         return (len(v), "<unprintable>")
+import Reduino.transpile.emitter as E
 def snap():
-    return {k: sig(v) for k, v in vars(P).items() if isinstance(v, (dict, list, set)) and not k.startswith("__") and k != "_VERIF_IGNORED"}
+    out = {}
+    for mod in (P, E):
+        for k, v in vars(mod).items():
+            if k.startswith("__") or k == "_VERIF_IGNORED":
+                continue
+            key = mod.__name__.rsplit(".", 1)[-1] + "." + k
+            if isinstance(v, (dict, list, set)):
+                out[key] = sig(v)
+            elif v is None or isinstance(v, (int, float, str, bool, tuple, frozenset)):
+                out[key] = repr(v)[:300]
+            elif hasattr(v, "cache_info"):
+                out[key] = "cache size " + str(v.cache_info().currsize)
+    return out
 state_before = snap()
 cases = json.loads(sys.stdin.read())
 out = []
@@ -250,7 +268,10 @@ POSITIONS = {
 }
 SITE_HDR = ('from Reduino.Actuators import Led, RGBLed, Servo, Buzzer\nfrom Reduino.Utils import sleep\nfrom Reduino.Sensors import Ultrasonic\n'
             'from Reduino.Displays import LCD\nfrom Reduino.Communication import SerialMonitor\nmon = SerialMonitor(9600, "COM3")\n'
-            'led = Led(13)\nrgb = RGBLed(3, 5, 6)\nbz = Buzzer(8)\nlcd = LCD(i2c_addr=0x27)\n')
+            'led = Led(13)\nrgb = RGBLed(3, 5, 6)\nbz = Buzzer(8)\nlcd = LCD(i2c_addr=0x27)\n'
+            # statements that make the transpiler allocate names / counters / environments before the hostile line
+            'p = 1\nq = 2\np, q = q, p\nzs = [1, 2]\nzs.append(3)\nsq = [i * i for i in range(3)]\n'
+            'def helper(v):\n    return v + 1\nif p > 1:\n    hoisted = 1\nelse:\n    hoisted = 2\n')
 
 
 def site_obligation(item):
@@ -300,7 +321,90 @@ def site_obligation(item):
     return res
 
 
+def live_patterns():
+    """(name, pattern, flags) of every regular expression of the transpiler: compiled module attributes and string
+    literals passed to re.* inside function bodies (read from the current source)."""
+    import re as _re
+    import Reduino.transpile.parser as P
+    import Reduino.transpile.emitter as E
+    import Reduino as R
+    out = []
+    for mod in (P, E, R):
+        short = mod.__name__.rsplit(".", 1)[-1]
+        for k, v in sorted(vars(mod).items()):
+            if isinstance(v, _re.Pattern):
+                out.append((f"{short}.{k}", v.pattern, v.flags & ~_re.UNICODE))
+        try:
+            tree = ast.parse(open(mod.__file__).read())
+        except OSError:
+            continue
+        n = 0
+        for node in ast.walk(tree):
+            if (isinstance(node, ast.Call) and isinstance(node.func, ast.Attribute) and isinstance(node.func.value, ast.Name)
+                    and node.func.value.id == "re" and node.args and isinstance(node.args[0], ast.Constant)
+                    and isinstance(node.args[0].value, str) and node.func.attr in
+                    ("compile", "match", "search", "fullmatch", "sub", "subn", "split", "findall", "finditer")):
+                pat = node.args[0].value
+                if not any(p == pat for _, p, _ in out):
+                    n += 1
+                    out.append((f"{short}.<inline:{node.lineno}>", pat, 0))
+    return out
+
+
+TIMING_PROG = '''
+import re, sys, json, time
+pat, flags, cands = json.loads(sys.stdin.read())
+rx = re.compile(pat, flags)
+for c in cands:
+    t = time.time()
+    rx.match(c); rx.search(c)
+    print(json.dumps([c, time.time() - t]), flush=True)
+'''
+
+
+def regex_obligation(item):
+    """z3 (sequence/regex theory): no loop of the live pattern is exponentially ambiguous; a finding is confirmed by
+    timing the real `re` engine on a pumped input in a subprocess."""
+    from .. import resym
+    _, oid, pat, flags = item
+    res = Result(oid, "holds")
+    try:
+        findings, q, unknown = resym.ambiguous_loops(pat, flags)
+    except resym.Unsupported as e:
+        res.verdict, res.detail = "inconclusive", f"pattern outside the translated regex subset: {e}"
+        return res
+    res.queries = q
+    res.nontrivial = q > 0
+    res.sample = {"obligation": oid, "pattern": pat, "loops_queried": q}
+    if unknown:
+        res.verdict, res.detail = "inconclusive", f"unknown for loops {unknown}"
+    for where, w in findings:
+        cands = resym.pumped_inputs(pat, w, flags, k=34)
+        slow = None
+        try:
+            r = subprocess.run([sys.executable, "-c", TIMING_PROG], input=json.dumps([pat, flags, cands]), capture_output=True,
+                               text=True, timeout=8)
+            for ln in r.stdout.splitlines():
+                c, dt = json.loads(ln)
+                if dt > 2:
+                    slow = (c, dt)
+        except subprocess.TimeoutExpired as e:
+            done = len((e.stdout or b"").splitlines()) if e.stdout else 0
+            slow = (cands[min(done, len(cands) - 1)], 8.0) if cands else None
+        if slow:
+            res.verdict = "violation"
+            res.detail = (f"catastrophic backtracking: the loop at {where} of {oid} reads {w!r} both as one and as several "
+                          f"iterations; matching a {len(slow[0])}-character line did not finish within {slow[1]:.0f}s")[:400]
+            res.witness = {"pattern": pat, "loop": where, "ambiguous_string": w, "slow_input": slow[0], "class": "redos"}
+            return res
+        res.verdict = "inconclusive"
+        res.detail = f"loop at {where} is exponentially ambiguous on {w!r} (solver) but no slow input was constructed"
+    return res
+
+
 def _work(item):
+    if item[0] == "regex":
+        return regex_obligation(item)
     if item[0] == "eval":
         return run_host_obligation(item[1], evaluator_body(item[2]), max_paths=20000, max_decisions=200, budget_s=600,
                                    describe="one step of the real _eval_const.ev on a solver-shaped node with symbolic leaves")
@@ -311,9 +415,18 @@ def run(tier, seed, only=None):
     t0 = time.time()
     items = [("eval", f"evaluator/{k}", k) for k in ROOT_KINDS]
     items += [("site", f"sites/{pos}", pos, tpl) for pos, tpl in POSITIONS.items()]
+    items += [("regex", f"regex/{name}", pat, flags) for name, pat, flags in live_patterns()]
+    items.append(("regex", "regex/self-test(must be found)", r"^x(?:a|aa)*y$", 0))
     if only:
         items = [i for i in items if only in i[1]]
     results = run_obligations(items, _work)
+    # reachability twin of the regex query: the deliberately ambiguous pattern must come back as a violation
+    for r in results:
+        if r.oid == "regex/self-test(must be found)":
+            if r.verdict == "violation":
+                r.verdict, r.detail, r.witness = "holds", "", None
+            else:
+                r.verdict, r.detail = "harness-error", "the ambiguous-loop query failed to flag (a|aa)*"
     return finish(
         "C11", "other", tier, seed, results, t0,
         explanation="Inductive step over the real whitelist evaluator: an isolated instance of the parser module receives, "
@@ -321,9 +434,11 @@ def run(tier, seed, only=None):
                     "solver-chosen and whose leaves are constants with symbolic int/float/bool values; on every path the "
                     "set of callables invoked (profiled) must be inside the fixed whitelist, the outcome must be a value of "
                     "the value sort or an ordinary exception, and no integer power with exponent > 64 may be computed "
-                    "(promptness).  The sites/* obligations are a concrete cross-check (hostile corpus x argument "
+                    "(promptness).  regex/*: no loop of any live regular expression is exponentially ambiguous (z3 regex theory; "
+                    "a finding is confirmed by timing the real engine).  The sites/* obligations are a concrete cross-check (hostile corpus x argument "
                     "positions through parse()/emit() under an audit hook, canaries, state diff, wall-clock limit).",
         functions_encoded=["Reduino.transpile.parser._eval_const.ev / _apply_bin (pysym, crafted trees)",
+                           "every re.Pattern / re.* literal of parser.py, emitter.py, Reduino/__init__.py (z3 regex terms)",
                            "parse()+emit() (concrete, audited subprocess)"],
         bounds={"tree depth": "1 (inductive step; children are leaves)", "root kinds": len(ROOT_KINDS), "hostile expressions": len(HOSTILE),
                 "positions": len(POSITIONS)},
